@@ -1,3 +1,365 @@
+import Cello.Seq
+import Cello.Sort
 import Driver.Common
-/- driver for engine `seq` — stub, replaced when the engine is built -/
-def main (_args : List String) : IO Unit := IO.println "O not-implemented"
+/- driver for engine `seq` (C04): interprets the op files of harness/h_seq.c on the model lean/Cello/Seq.lean and prints
+   the same `O` lines (see the header of h_seq.c for the op language and the output format). -/
+open Cello.Seq
+
+namespace SeqDrv
+
+/-- a Tuple element: an Int object with an identity -/
+structure Obj where
+  id : Nat
+  val : Int
+deriving Repr, Inhabited
+
+/-- `eq` on Tuple elements compares the Int values (Int_Cmp), not the pointers -/
+instance : BEq Obj := ⟨fun a b => a.val == b.val⟩
+
+inductive Cont where
+  | arr (str : Bool) (a : Arr Int)
+  | lst (str : Bool) (l : Lst Int)
+  | tup (t : Tup Obj)
+
+def Cont.isStr : Cont → Bool
+  | .arr s _ => s | .lst s _ => s | .tup _ => false
+def Cont.isTup : Cont → Bool
+  | .tup _ => true | _ => false
+
+structure St where
+  slots : Array (Option Cont) := Array.replicate 16 none
+  objs : Array (Option Int) := #[]          -- id -> value of the Tuple element objects created so far
+  dumpOn : Bool := true
+
+def HP : Nat := 4294967291
+def strMax : Int := 9999999
+def valMax : Int := 1000000000000
+
+def encInt (v : Int) : Nat := (v % (HP : Int)).toNat
+def encObj (o : Obj) : Nat := (encInt o.val + (o.id * 7919) % HP) % HP
+def showObj (o : Obj) : String := s!"{o.id}:{o.val}"
+
+def fmtSeq {α : Type} (sh : α → String) (enc : α → Nat) (xs : List α) : String :=
+  let n := xs.length
+  if n ≤ 24 then "[" ++ " ".intercalate (xs.map sh) ++ "]"
+  else
+    let h := xs.foldl (fun h e => (h * 1000003 + enc e) % HP) 0
+    "[" ++ " ".intercalate ((xs.take 8).map sh) ++ " ... " ++ " ".intercalate ((xs.drop (n - 8)).map sh) ++ s!"] h={h}"
+
+def fmtInts (xs : List Int) : String := fmtSeq toString encInt xs
+def fmtObjs (xs : List Obj) : String := fmtSeq showObj encObj xs
+
+def Cont.dump : Cont → String
+  | .arr s a => s!"{if s then "AS" else "A"} n={a.items.length} s={a.nslots} {fmtInts a.items}"
+  | .lst s l => s!"{if s then "LS" else "L"} n={l.nitems} {fmtInts l.items}"
+  | .tup t => s!"T n={t.items.length} {fmtObjs t.items}"
+
+def resStr : Res Unit → String
+  | .ok _ => "ok"
+  | .raised e => "err=" ++ e.name
+  | .ub => "ub"
+
+def key (v : Int) : Int := v / 256
+def cmpInt (f : Nat) (a b : Int) : Bool :=
+  match f with
+  | 0 => a < b
+  | 1 => key a < key b
+  | 2 => key a > key b
+  | _ => key a ≤ key b
+def cmpObj (f : Nat) (a b : Obj) : Bool := cmpInt f a.val b.val
+
+/-- canonical decimal integer -/
+def parseInt (s : String) : Option Int :=
+  let body := if s.startsWith "-" then (s.drop 1).toString else s
+  if body.isEmpty || !body.all Char.isDigit then none else
+  match body.toNat? with
+  | none => none
+  | some n => some (if s.startsWith "-" then -(n : Int) else n)
+
+def parseNat (s : String) : Option Nat :=
+  if s.isEmpty || !s.all Char.isDigit then none else s.toNat?
+
+def maxObj : Nat := 1 <<< 20
+
+/-- element token for a Tuple: `id:val`; binds the id to the value on first use, fails on a conflicting reuse -/
+def parseObj (st : St) (s : String) : St × Option Obj :=
+  match s.splitOn ":" with
+  | [a, b] =>
+    match parseNat a, parseInt b with
+    | some id, some v =>
+      if id ≥ maxObj then (st, none)
+      else if v < -valMax || v > valMax then (st, none)
+      else
+        let objs := if id < st.objs.size then st.objs else st.objs ++ Array.replicate (id + 1 - st.objs.size) none
+        match objs[id]? with
+        | some (some v0) => if v0 = v then ({ st with objs := objs }, some ⟨id, v⟩) else ({ st with objs := objs }, none)
+        | _ => ({ st with objs := objs.set! id (some v) }, some ⟨id, v⟩)
+    | _, _ => (st, none)
+  | _ => (st, none)
+
+/-- element / probe value token for Int and String kinds -/
+def parseVal (str : Bool) (s : String) : Option Int :=
+  match parseInt s with
+  | none => none
+  | some v => if str then (if v ≥ 0 && v ≤ strMax then some v else none)
+              else (if v ≥ -valMax && v ≤ valMax then some v else none)
+
+def slotIdx (s : String) : Option Nat :=
+  match parseNat s with
+  | some k => if k < 16 then some k else none
+  | none => none
+
+def getSlot (st : St) (s : String) : Option (Nat × Cont) :=
+  match slotIdx s with
+  | some k => match st.slots[k]? with
+    | some (some c) => some (k, c)
+    | _ => none
+  | none => none
+
+def emptySlot (st : St) (s : String) : Option Nat :=
+  match slotIdx s with
+  | some k => match st.slots[k]? with
+    | some none => some k
+    | _ => none
+  | none => none
+
+def out (st : St) (cmd res : String) (c : Option Cont) : String :=
+  match c with
+  | some c => if st.dumpOn then s!"O {cmd} {res} | {c.dump}" else s!"O {cmd} {res}"
+  | none => s!"O {cmd} {res}"
+
+def setSlot (st : St) (k : Nat) (c : Option Cont) : St := { st with slots := st.slots.set! k c }
+
+def hasId (t : Tup Obj) (id : Nat) : Bool := t.items.any (fun o => o.id == id)
+
+def optSeq {α : Type} (f : List α → String) : Option (List α) → String
+  | some l => f l
+  | none => "diverges"
+
+/-- ops on an Int-element container (Array or List), generic part -/
+def stepInts (st : St) (k : Nat) (c : Cont) (cmd : String) (args : List String) : St × String :=
+  let str := c.isStr
+  let fin (c' : Cont) (r : Res Unit) : St × String := (setSlot st k (some c'), out st cmd (resStr r) (some c'))
+  let run (op : Op Int) : St × String :=
+    match c with
+    | .arr s a => let (a', r) := a.step op; fin (.arr s a') r
+    | .lst s l => let (l', r) := l.step op; fin (.lst s l') r
+    | .tup _ => (st, "O bad-op")
+  match cmd, args with
+  | "push", [e] => match parseVal str e with
+    | some v => run (.push v) | none => (st, "O bad-op")
+  | "append", [e] => match parseVal str e with
+    | some v => run (.append v) | none => (st, "O bad-op")
+  | "pop", [] => run .pop
+  | "pushat", [e, i] => match parseVal str e, parseInt i with
+    | some v, some i => run (.pushAt v i) | _, _ => (st, "O bad-op")
+  | "popat", [i] => match parseInt i with
+    | some i => run (.popAt i) | none => (st, "O bad-op")
+  | "set", [i, e] => match parseInt i, parseVal str e with
+    | some i, some v => run (.set i v) | _, _ => (st, "O bad-op")
+  | "rem", [e] => match parseVal str e with
+    | some v => run (.rem v) | none => (st, "O bad-op")
+  | "get", [i] => match parseInt i with
+    | some i =>
+      let r := match c with
+        | .arr _ a => a.get i | .lst _ l => l.get i | .tup _ => .ub
+      let rs := match r with
+        | .ok v => s!"v={v}" | .raised e => "err=" ++ e.name | .ub => "ub"
+      (st, out st cmd rs (some c))
+    | none => (st, "O bad-op")
+  | "mem", [e] => match parseVal str e with
+    | some v =>
+      let b := match c with
+        | .arr _ a => a.mem v | .lst _ l => l.mem v | .tup _ => false
+      (st, out st cmd (if b then "b=1" else "b=0") (some c))
+    | none => (st, "O bad-op")
+  | "len", [] =>
+    let n := match c with
+      | .arr _ a => a.nitems | .lst _ l => l.nitems | .tup _ => 0
+    (st, out st cmd s!"v={n}" (some c))
+  | "resize", [n] => match parseNat n with
+    | some n =>
+      if n > 100000 then (st, "O bad-op") else
+      match c with
+      | .lst true l => if n > l.items.length then (st, "O resize unsupported") else run (.resize n)
+      | _ => run (.resize n)
+    | none => (st, "O bad-op")
+  | "sort", [f] => match parseNat f with
+    | some f => if f > 3 then (st, "O bad-op") else run (.sort (cmpInt f))
+    | none => (st, "O bad-op")
+  | "iter", [] =>
+    let (fw, bw) := match c with
+      | .arr _ a => (a.iterFwd, a.iterBwd)
+      | .lst _ l => (l.iterFwd, l.iterBwd)
+      | .tup _ => (none, none)
+    (st, out st cmd s!"fwd={optSeq fmtInts fw} bwd={optSeq fmtInts bw}" (some c))
+  | _, _ => (st, "O bad-op")
+
+def ident (o : Obj) : Nat := o.id
+
+def stepTup (st : St) (k : Nat) (t : Tup Obj) (cmd : String) (args : List String) : St × String :=
+  let fin (st : St) (t' : Tup Obj) (r : Res Unit) : St × String :=
+    (setSlot st k (some (.tup t')), out st cmd (resStr r) (some (.tup t')))
+  let run (st : St) (op : Op Obj) : St × String := let (t', r) := t.step op; fin st t' r
+  let fuel := t.items.length + 1
+  match cmd, args with
+  | "push", [e] => match parseObj st e with
+    | (st, some o) => if hasId t o.id then (st, "O push dup-refused") else run st (.push o)
+    | (st, none) => (st, "O bad-op")
+  | "append", [e] => match parseObj st e with
+    | (st, some o) => if hasId t o.id then (st, "O append dup-refused") else run st (.append o)
+    | (st, none) => (st, "O bad-op")
+  | "pop", [] => run st .pop
+  | "pushat", [e, i] => match parseObj st e with
+    | (st, some o) => match parseInt i with
+      | some i => if hasId t o.id then (st, "O pushat dup-refused") else run st (.pushAt o i)
+      | none => (st, "O bad-op")
+    | (st, none) => (st, "O bad-op")
+  | "popat", [i] => match parseInt i with
+    | some i => run st (.popAt i) | none => (st, "O bad-op")
+  | "set", [i, e] => match parseInt i with
+    | some i => match parseObj st e with
+      | (st, some o) => if hasId t o.id then (st, "O set dup-refused") else run st (.set i o)
+      | (st, none) => (st, "O bad-op")
+    | none => (st, "O bad-op")
+  | "rem", [e] => match parseVal false e with
+    | some v => run st (.rem ⟨0, v⟩) | none => (st, "O bad-op")
+  | "get", [i] => match parseInt i with
+    | some i =>
+      let rs := match t.get i with
+        | .ok o => s!"v={showObj o}" | .raised e => "err=" ++ e.name | .ub => "ub"
+      (st, out st cmd rs (some (.tup t)))
+    | none => (st, "O bad-op")
+  | "mem", [e] => match parseVal false e with
+    | some v =>
+      let rs := match t.mem ident ⟨0, v⟩ fuel with
+        | some true => "b=1" | some false => "b=0" | none => "diverges"
+      (st, out st cmd rs (some (.tup t)))
+    | none => (st, "O bad-op")
+  | "len", [] => (st, out st cmd s!"v={t.len}" (some (.tup t)))
+  | "resize", [n] => match parseNat n with
+    | some n => if n > 100000 then (st, "O bad-op") else run st (.resize n)
+    | none => (st, "O bad-op")
+  | "sort", [f] => match parseNat f with
+    | some f => if f > 3 then (st, "O bad-op") else run st (.sort (cmpObj f))
+    | none => (st, "O bad-op")
+  | "iter", [] =>
+    (st, out st cmd s!"fwd={optSeq fmtObjs (t.iterFwd ident fuel)} bwd={optSeq fmtObjs (t.iterBwd ident fuel)}" (some (.tup t)))
+  | _, _ => (st, "O bad-op")
+
+/-- `concat dst src` / `assign dst src` -/
+def stepTwo (st : St) (k : Nat) (c : Cont) (cmd : String) (srcTok : String) : St × String :=
+  let isc := cmd == "concat"
+  match getSlot st srcTok with
+  | none => (st, "O bad-op")
+  | some (ks, src) =>
+    if ks == k then (st, "O bad-op") else
+    match c with
+    | .tup t =>
+      match src with
+      | .tup u =>
+        if isc && u.items.any (fun o => hasId t o.id) then (st, "O concat dup-refused")
+        else
+          let (t', r) := t.step (if isc then .concat u.items else .assign u.items)
+          (setSlot st k (some (.tup t')), out st cmd (resStr r) (some (.tup t')))
+      | _ => (st, "O bad-op")
+    | _ =>
+      let ys : Option (List Int) :=
+        match src with
+        | .arr s a => if s == c.isStr then some a.items else none
+        | .lst s l => if s == c.isStr then some l.items else none
+        | .tup u => if isc && !c.isStr then some (u.items.map (·.val)) else none
+      match ys with
+      | none => (st, "O bad-op")
+      | some ys =>
+        let op : Op Int := if isc then .concat ys else .assign ys
+        match c with
+        | .arr s a => let (a', r) := a.step op; (setSlot st k (some (.arr s a')), out st cmd (resStr r) (some (.arr s a')))
+        | .lst s l => let (l', r) := l.step op; (setSlot st k (some (.lst s l')), out st cmd (resStr r) (some (.lst s l')))
+        | .tup _ => (st, "O bad-op")
+
+def parseElems (st : St) (toks : List String) : St × Option (List Obj) :=
+  toks.foldl (fun (acc : St × Option (List Obj)) tok =>
+    match acc with
+    | (st, none) => (st, none)
+    | (st, some os) => match parseObj st tok with
+      | (st, some o) => (st, some (os ++ [o]))
+      | (st, none) => (st, none)) (st, some [])
+
+def nodupIds (os : List Obj) : Bool :=
+  (os.foldl (fun (acc : Bool × List Nat) o => (acc.1 && !acc.2.contains o.id, o.id :: acc.2)) (true, [])).1
+
+def stepLine (st : St) (line : String) : St × String :=
+  match Driver.words line with
+  | [] => (st, "")
+  | ["dump", "on"] => ({ st with dumpOn := true }, "O dump on")
+  | ["dump", "off"] => ({ st with dumpOn := false }, "O dump off")
+  | ["kf13", e] =>
+    match parseObj st e with
+    | (st, some o) =>
+      let t : Tup Obj := ⟨[o, o]⟩
+      match t.iterFwd ident 1000 with
+      | none => (st, "O kf13 fwd=diverges")
+      | some l => (st, s!"O kf13 fwd={l.length}")
+    | (st, none) => (st, "O bad-op")
+  | "new" :: slot :: kind :: elems =>
+    match emptySlot st slot with
+    | none => (st, "O bad-op")
+    | some k =>
+      let mk (str : Bool) (isArr : Bool) : St × String :=
+        let vs := elems.map (parseVal str)
+        if vs.all Option.isSome then
+          let xs := vs.filterMap id
+          let c : Cont := if isArr then .arr str (Arr.new xs) else .lst str ((Lst.empty.concat xs).1)
+          (setSlot st k (some c), out st "new" "ok" (some c))
+        else (st, "O bad-op")
+      match kind with
+      | "A" => mk false true
+      | "AS" => mk true true
+      | "L" => mk false false
+      | "LS" => mk true false
+      | "T" =>
+        match parseElems st elems with
+        | (st, some os) =>
+          if nodupIds os then
+            let c : Cont := .tup ⟨os⟩
+            (setSlot st k (some c), out st "new" "ok" (some c))
+          else (st, "O bad-op")
+        | (st, none) => (st, "O bad-op")
+      | _ => (st, "O bad-op")
+  | ["del", slot] =>
+    match getSlot st slot with
+    | some (k, _) => (setSlot st k none, "O del ok")
+    | none => (st, "O bad-op")
+  | ["copy", dst, src] =>
+    match emptySlot st dst, getSlot st src with
+    | some k, some (_, c) =>
+      let c' : Cont := match c with
+        | .arr s a => .arr s a.copy
+        | .lst s l => .lst s l.copy
+        | .tup t => .tup t.copy
+      (setSlot st k (some c'), out st "copy" "ok" (some c'))
+    | _, _ => (st, "O bad-op")
+  | cmd :: slot :: args =>
+    match getSlot st slot with
+    | none => (st, "O bad-op")
+    | some (k, c) =>
+      if cmd == "concat" || cmd == "assign" then
+        match args with
+        | [src] => stepTwo st k c cmd src
+        | _ => (st, "O bad-op")
+      else match c with
+        | .tup t => stepTup st k t cmd args
+        | _ => stepInts st k c cmd args
+  | _ => (st, "O bad-op")
+
+end SeqDrv
+
+def main (args : List String) : IO Unit := do
+  let lines ← Driver.inputLines args
+  let mut st : SeqDrv.St := {}
+  for l in lines do
+    if Driver.isSkippable l then continue
+    let (st', o) := SeqDrv.stepLine st l
+    st := st'
+    if !o.isEmpty then IO.println o
